@@ -17,7 +17,7 @@ import ast
 from .. import translate
 from . import normalize
 from ..translate import Untranslatable
-from .threshold import _expr, _find_func, _str_const
+from .threshold import _expr, _find_func, _str_const, parse_top
 from .tradeoff import _body, _int, _name, _single_assigns, only_statements
 
 TOF = "fairlearn/postprocessing/_threshold_optimizer.py"
@@ -375,7 +375,7 @@ def _r(v):
 
 @translate.lifter
 def lift_thresholdfit(repo):
-    tree = normalize.parse(translate._read(repo, TOF))
+    tree = parse_top(repo)
     sm = _simple(tree)
     eo = _eo(tree)
     if eo["grid"] != (sm["lo"], sm["hi"], sm["extra"]):
